@@ -142,6 +142,7 @@ func c04UsesValue(c ssa.CallInstruction, pred func(ssa.Value) bool) bool {
 }
 
 func c04(r *core.Run) {
+	defer c04Extra(r)
 	p := r.P
 	r.Explanation = "Decides on every path: (JWT) the closure that calls Parser.ParseToken reaches next.ServeHTTP only with err == nil ∧ tok.Valid ∧ claims type-ok, every failing arm passes a function that writes 401 on all its paths, every non-registered claim key (the ignored set may be a switch, a helper or a constant package-level table, which is evaluated) reaches context.WithValue(ctx, k, v) with a loop-carried ctx that is the context of the request given to next; ParseToken, evaluated path by path for an empty and a non-empty prevSecret with every attempt's outcome open (control flow as written: nested ifs, early returns or a loop over the ordered pair; locals in variables, structs or arrays), parses only with secret or a non-empty prevSecret, returns a failure only after every available secret was tried, returns a nil error only with the token of an attempt that succeeded; the key function returns the secret it was given; Authorize is given (r, secret, opts.PrevSecret) and engine.appendAuthHandler appends it whenever jwt is enabled. (Signature) for each of DELETE/GET/POST/PUT (method test as a switch, comparisons, a helper or a lookup in a constant package-level table) the gate closure uses next only after ParseContentSecurity err == nil ∧ VerifySignature == CodeSignaturePass (the failure callbacks excepted), the default callback calls next only when !strict and otherwise writes 403 and is installed when no callback is given; ParseContentSecurity succeeds only with a configured decryptor and successful decryption/decoding and takes key and timestamp from the decrypted secret; the MAC input depends on header timestamp, r.Method, path, query and body hash, is keyed with the header key and compared with the header signature; the path/query that enter the MAC are those of r.URL; the timestamp window is two-sided and symmetric (normal form); HmacBase64/Hmac key and feed the MAC with their arguments; engine.signatureVerifier lets a route through unsigned only when signatures are off or (no keys ∧ !Strict). (RPC) Authenticate reaches validate only with metadata present and non-empty app/token lists and values, passes (apps[0], tokens[0]) in that order, all other exits are Unauthenticated; validate returns nil only under (store error ∧ !strict) or token == expected, looks the app up under (a.key, app); both interceptors call the handler only after Authenticate returned nil with the call's context; setupInterceptors installs both when Auth is set with StrictControl as strictness."
 	r.NotDecided = "cryptographic validity (golang-jwt, crypto/hmac, the RSA decryptor are trusted); effects of the adaptive secret ordering over histories of requests; time-claim validation inside golang-jwt; the cache's 5-minute staleness."
